@@ -91,7 +91,8 @@ def decode_package(r):
     ops_sx, exclude, table, module = r[1]
 
     def cls(c):
-        return {"name": c[0], "type": c[1], "bases": c[2], "frags": c[3], "direct": c[4], "bfrags": c[5]}
+        return {"name": c[0], "type": c[1], "bases": c[2], "frags": c[3], "direct": c[4], "bfrags": c[5],
+                "direct_at": [tuple(x) for x in c[6]]}
 
     out = {"ops": {}, "exclude": exclude, "table": {k: v for k, v in table}, "module": None}
     for name, classes, mix, unp, imports in ops_sx:
